@@ -1,6 +1,29 @@
-"""C09: parser states are exactly the canonical LR(0) collection."""
-from vlib import Inconclusive
+"""C09: parser states are exactly the canonical LR(0) collection.
+Conformance: recorded LR0Closure vs the canonical collection (ConfLR0.tla).  Design level: the worklist construction
+as a state machine (LR0Algo.tla), model-checked on the corpus grammars and a sample of the recorded ones."""
+import glob
+import json
+import os
+
+from vlib import Inconclusive, add_tlc_cov, run_tlc, stage_spec
 import conf
+
+
+def algo_model(ctx):
+    """LR0Algo.tla over the accepted corpus grammars + a sample of the other recorded grammars (small automata)."""
+    shards = sorted(glob.glob(os.path.join(ctx.work, "obs", "obs-*.json")))
+    gs = []
+    for sf in shards:
+        for o in json.load(open(sf)):
+            if o["outcome"] == "ok" and len(o["states"]) <= 14 and (o["id"].startswith("corpus-") or len(gs) < ctx.pick(120, 1200)):
+                gs.append({"id": o["id"], "g": o["g"]})
+    d = ctx.sub("lr0algo")
+    stage_spec(d)
+    json.dump(gs, open(os.path.join(d, "grammars.json"), "w"))
+    res = run_tlc(d, "LR0Algo.tla", "LR0Algo.cfg", timeout=ctx.pick(600, 3000), heap="6g", workers=8)
+    if res.errors or res.violations:
+        raise Inconclusive("LR0Algo.tla model check failed: %s %s" % (res.errors, [v[0] for v in res.violations]))
+    add_tlc_cov(ctx, [("lr0algo", res)], "worklist construction as a state machine on %d grammars (LR0Algo.tla)" % len(gs))
 
 
 def run(ctx, replay):
@@ -8,6 +31,8 @@ def run(ctx, replay):
         if stats.get("ok", 0) < ctx.pick(300, 5000):
             raise Inconclusive("too few accepted grammars: %s" % stats)
     stats, summary = conf.run_conf(ctx, replay, "lr0", "ConfLR0.tla", "ConfLR0_C09.cfg", guards)
+    if not replay:
+        algo_model(ctx)
     ctx.cov["rule"] = ("grammars: corpus + exhaustive small grammars (<=3 rules over {S,A,a,b}, a 1/8 slice in quick) + seeded random "
                        "families; each accepted grammar's recorded LR0Closure (item sets, goto lists) is one case; non-trivial = accepted "
                        "by yaccgo (has an automaton)")
